@@ -1,6 +1,8 @@
 mod common;
+mod fswalk;
 mod model;
 mod props_algebra;
+mod props_fs;
 mod props_lang;
 mod props_partition;
 mod props_query;
@@ -27,6 +29,7 @@ fn replay(prop: &str, file: &str) -> i32 {
             "exhaustive" => props_query::replay_exhaustive(&case),
             "family" => props_algebra::replay_family(&case),
             "lang" => props_lang::replay_lang(&case),
+            "walk" => props_fs::replay_walk(&case, prop),
             "partition" => props_partition::replay_partition(&case),
             "escape" => props_partition::replay_escape(&case),
             "depth" => props_query::replay_depth(&case),
@@ -102,11 +105,26 @@ fn main() {
         i += 1;
     }
     common::silence_panics();
+    // watchdog: a run that exceeds its wall budget is a machinery failure, never a verdict
+    {
+        let limit = std::env::var("WAXMC_WALL_LIMIT_S").ok().and_then(|s| s.parse::<u64>().ok()).unwrap_or(match tier {
+            Tier::Quick => 600,
+            Tier::Thorough => 3 * 3600,
+        });
+        std::thread::spawn(move || {
+            std::thread::sleep(std::time::Duration::from_secs(limit));
+            eprintln!("MACHINERY-FAILURE: wall limit of {} s exceeded", limit);
+            let _ = std::fs::remove_dir_all(format!("/dev/shm/waxmc-{}", std::process::id()));
+            std::process::exit(2);
+        });
+    }
     if let Some(f) = replay_file {
         std::process::exit(replay(&prop, &f));
     }
     let code = match prop.as_str() {
         "C01" => props_lang::c01(tier),
+        "C02" => props_fs::c02_c14(tier, "C02"),
+        "C14" => props_fs::c02_c14(tier, "C14"),
         "C07" => props_algebra::c07(tier),
         "C08" => props_partition::c08(tier),
         "C18" => props_partition::c18(tier),
